@@ -166,3 +166,25 @@ def h_attr_position(pos: int, kind: int, s: str) -> bool:
     out = Tag("p", d, "t", Tag("br")).get_html_string()
     want = '<p a0="' + exp[0] + '" a1="' + exp[1] + '" a2="' + exp[2] + '">\n  t\n  <br/>\n</p>'
     return out == want
+
+
+@harness("C03", pre=lambda B, order, s: 0 <= order <= 3 and len(s) <= B["L"], bounds={"quick": {"L": 2}, "thorough": {"L": 3}},
+         shard={"order": range(4)},
+         sym=["s: str over all code points, len <= L"],
+         sel=["order: the same string escaped as text then as attribute value, the reverse, as sibling text and attribute in one tree, in two renders"],
+         targets=["htmltools._util.html_escape", "htmltools._core.Tag.get_html_string"],
+         timeout={"quick": 200, "thorough": 1500})
+def k_escape_order(order: int, s: str) -> bool:
+    """escaping is a function of (text, table) only: escaping the same string under the other table earlier in the process changes nothing"""
+    from oracles.escape import ref_escape_text
+    et, ea = ref_escape_text(s), ref_escape_attr(s)
+    if order == 0:
+        return html_escape(s) == et and html_escape(s, attr=True) == ea and html_escape(s) == et
+    if order == 1:
+        return html_escape(s, attr=True) == ea and html_escape(s) == et and html_escape(s, attr=True) == ea
+    if order == 2:
+        out = Tag("div", s, Tag("span", title=s, _add_ws=False)).get_html_string()
+        return out == "<div>\n  " + et + '<span title="' + ea + '"></span>\n</div>'
+    a = Tag("p", s).get_html_string()
+    b = Tag("i", title=s).get_html_string()
+    return a == "<p>" + et + "</p>" and b == '<i title="' + ea + '"></i>'
